@@ -16,6 +16,7 @@ class Skip(Exception):
     pass
 
 
+QUADRANT = {"q2": 1j, "q3": -1.0, "q4": -1j}      # rotation of the (first-quadrant) generic complex points
 DK = [0]       # offset of the generic point, set per configuration (cfg["dk"]): different seeds / thorough variants use different points
 
 
@@ -70,6 +71,31 @@ def build(cfg):
     return BUILDERS[fam](cfg)
 
 
+RAW_FAMILIES = {"binary", "where", "reduce", "cum", "unary", "rearr", "join", "contract", "index", "mixorder", "linalg", "fft", "kink",
+                "argsweep", "empty", "single", "realinto"}
+
+
+def raw_value(cfg):
+    """The value of the same call spelled against numpy ITSELF (the templates look `np` up when they are built and called, so for the
+    duration of this function `np` is plain numpy): an oracle for the primal value that shares no code with autograd - the functions
+    autograd re-implements in Python on top of its primitives (stack, vstack, array, select, r_, ...) never reach plain NumPy through the
+    wrapper.  Raises Skip when the template uses something plain numpy does not have."""
+    global np
+    if cfg["fam"] not in RAW_FAMILIES:
+        raise Skip("no raw template")
+    saved = np
+    np = onp
+    try:
+        f, x, info = BUILDERS[cfg["fam"]](cfg)
+        return onp.asarray(info.get("f_numpy", f)(x))
+    except Skip:
+        raise
+    except Exception as ex:     # noqa
+        raise Skip("raw numpy: " + type(ex).__name__)
+    finally:
+        np = saved
+
+
 # ----------------------------------------------------------------------------- binary
 def b_binary(c):
     prim, form, argnum, kind = c["prim"], c["form"], c["argnum"], c["kind"]
@@ -81,6 +107,8 @@ def b_binary(c):
     b = data(sb, 0.4, 1.9, 5, cb)
     if prim in ("mod", "remainder"):
         b = b + 0.31
+    rot = QUADRANT.get(c["st"], 1.0)
+    a, b = (a * rot if ca else a), (b * rot if cb else b)
     fn = getattr(np, prim)
     if form == "func":
         call = lambda u, v: fn(u, v)
@@ -422,6 +450,8 @@ def b_cum(c):
 def b_unary(c):
     prim, form = c["prim"], c["form"]
     x = dom(prim, data(tuple(c["s"]), 0.3, 2.7, 0, c["kind"] == "cc"))
+    if c["kind"] == "cc":
+        x = x * QUADRANT.get(c["st"], 1.0)
     if prim in ("floor", "ceil", "rint", "trunc", "sign"):
         pass
     if form == "op":
